@@ -206,3 +206,56 @@ Example C06_generated_example :
           (fun x' => snd b' x' * kernel QcF 4 cs4 sn4 ex_Z ((nth (Z.to_nat (fst bx)) [1; 0] 0 - fst b') * 2 + snd bx - x')%Z))
           (train QcF P p)))%Qc) [(0, 0); (0, 1); (1, 0); (1, 1)].
 Proof. split; [intros l Hl; exact Hl|vm_compute; reflexivity]. Qed.
+(** *** (family scaling) the padded lengths main() hands to the fields, over the definitions GENERATED from
+    main() on every run (Gen/Gen_ScalingZ.v; replaces the former text check of the main.cpp lines).
+    spacing_bins = round(fl(GridSize*spacing_ps)); the radiation field's length is ceil(fl(GridSize*max(padding,1)));
+    the wake field's length for more than one bucket is max(ceil(fl((GridSize*buckets)*spacing_ps)),
+    (buckets-1)*spacing_bins + GridSize); both rounded up by upper_power_of_two when RoundPadding is set.
+    Products are matched up to ring identities. *)
+From Coq Require Bool.
+From Inovesa Require Model.Kick Model.Bounds Model.ScalingOps Gen.Gen_ScalingZ Proofs.ScalingZP Proofs.ScalingZFormP.
+Module ScalingFamily.   (* imports and scopes stay local to this block *)
+Import Bool Kick Bounds ScalingOps Gen_ScalingZ ScalingZP ScalingZFormP.
+Local Open Scope Z_scope.
+
+Theorem C06_main_spacing_bins_formula :
+  forall (LZ : zleaf -> Z) (LQ : qleaf -> Qc) (LB : zbleaf -> bool) sp,
+    gen_spacing_bins LZ LQ LB = Val sp ->
+    sp = Qcround (rnd53 (Qcz (LZ O_getGridSize) * LQ V_spacing_ps)%Qc) /\ 0 <= sp < 2 ^ 32.
+Proof. exact gen_spacing_bins_formula. Qed.
+Print Assumptions C06_main_spacing_bins_formula.
+
+Theorem C06_main_radiation_length_formula :
+  forall (LZ : zleaf -> Z) (LQ : qleaf -> Qc) (LB : zbleaf -> bool) nm,
+    gen_rdtn_nfreqs LZ LQ LB = Val nm ->
+    let c := Qcceil (rnd53 (Qcz (LZ O_getGridSize) * Qcmax (LQ O_getPadding) (Qcz 1))%Qc) in
+    nm = (if LB O_getRoundPadding then upper_power_of_two c else c) /\ 0 <= c < 2 ^ 64.
+Proof. exact gen_rdtn_nfreqs_formula. Qed.
+Print Assumptions C06_main_radiation_length_formula.
+
+Theorem C06_main_wake_length_formula :
+  forall (LZ : zleaf -> Z) (LQ : qleaf -> Qc) (LB : zbleaf -> bool) sp nm,
+    0 < LZ O_getGridSize < 2 ^ 32 -> 1 < LZ N_getBunchCurrents < 2 ^ 32 ->
+    LZ O_getGridSize * LZ N_getBunchCurrents < 2 ^ 32 ->
+    gen_spacing_bins LZ LQ LB = Val sp -> gen_wake_nfreqs LZ LQ LB = Val nm ->
+    let n := LZ O_getGridSize in let nb := LZ N_getBunchCurrents in
+    let c := Z.max (Qcceil (rnd53 (Qcz (n * nb) * LQ V_spacing_ps)%Qc)) ((nb - 1) * sp + n) in
+    nm = (if LB O_getRoundPadding then upper_power_of_two c else c).
+Proof. exact gen_wake_nfreqs_formula. Qed.
+Print Assumptions C06_main_wake_length_formula.
+
+(** the hypothesis "bucket*spacing + n <= N" of the convolution theorems holds for what main() computes:
+    the padded train fits the transform length (every bucket b < number of buckets, every cell x < GridSize) *)
+Theorem C06_main_train_fits :
+  forall (LZ : zleaf -> Z) (LQ : qleaf -> Qc) (LB : zbleaf -> bool) sp nm b x,
+    0 < LZ O_getGridSize < 2 ^ 32 -> 1 < LZ N_getBunchCurrents < 2 ^ 32 ->
+    gen_spacing_bins LZ LQ LB = Val sp -> gen_wake_nfreqs LZ LQ LB = Val nm -> 0 < nm ->
+    0 <= b < LZ N_getBunchCurrents -> 0 <= x < LZ O_getGridSize ->
+    0 <= pad_index sp b x < nm.
+Proof. exact gen_pad_in_bounds. Qed.
+Print Assumptions C06_main_train_fits.
+
+Example C06_main_lengths_example : (* 5 buckets, GridSize 16, spacing_ps 265/256, padding 1.5, RoundPadding *)
+  gen_sizes_list [5; 16] [Q2Qc (3 # 2); Q2Qc (265 # 256)] [true] = [17; 32; 128; 0].
+Proof. vm_compute. reflexivity. Qed.
+End ScalingFamily.
